@@ -111,6 +111,11 @@ func RunC14(t *testing.T) {
 			for k, v := range g.Labels {
 				labels["gen/"+k] = v
 			}
+			for k, v := range h.Labels {
+				if strings.HasPrefix(k, "scale:") {
+					labels[k] = v
+				}
+			}
 			// classification: per-bidder transfers in one block
 			for _, st := range h.Steps {
 				if st.Op.Kind != OpBlock {
